@@ -826,11 +826,17 @@ func missingKey(c *an.Ctx, r *runnerRoles, cc *ssa.Function, rule string) {
 			data := ci.Common().Args[2]
 			own := false
 			bad := ""
-			for _, src := range p.DeepSources(data, 3, an.Outer(ci.Parent()) != rs) {
+			isOwnParam := func(v ssa.Value) bool {
+				prm, ok := v.(*ssa.Parameter)
+				return ok && prm.Parent() == rs
+			}
+			for _, src := range p.DeepSourcesStop(data, 3, an.Outer(ci.Parent()) != rs, isOwnParam) {
 				if mi, ok := src.(*ssa.MakeInterface); ok {
 					src = mi.X
 				}
-				src = an.ContentOf(src)
+				if !isOwnParam(src) {
+					src = an.ContentOf(src)
+				}
 				if prm, ok := src.(*ssa.Parameter); ok && prm.Parent() == rs {
 					if _, isMap := prm.Type().Underlying().(*types.Map); isMap {
 						own = true
